@@ -76,6 +76,7 @@ inline std::string elemDesc(const XERCESC_NS::DOMElement* e) {
 class RecQueue : public BasicEventQueue {
 public:
 	std::string qid, role;
+	long dequeued = 0;   // events handed out so far
 	RecQueue(const std::string& r) : role(r) {
 		qid = "q" + std::to_string(g_queueCount++);
 		(*g_queues)[(EventQueueImpl*)this] = QueueInfo{qid, role};
@@ -92,6 +93,7 @@ public:
 		if (blockMs == 0) {
 			Event e = BasicEventQueue::dequeue(blockMs);
 			if (e.name.size() || e.uuid.size()) {
+				dequeued++;
 				{ tr::Rec(qid, "deq<").str(role).num(0); }
 				{ tr::Rec(qid, "deq>").str(role).rawjson(eventJSON(e)).str(e.uuid); }
 			}
@@ -99,6 +101,7 @@ public:
 		}
 		{ tr::Rec(qid, "deq<").str(role).num(blockMs == std::numeric_limits<size_t>::max() ? -1 : (long long)blockMs); }
 		Event e = BasicEventQueue::dequeue(blockMs);
+		if (e.name.size()) dequeued++;
 		{ tr::Rec(qid, "deq>").str(role).rawjson(eventJSON(e)).str(e.uuid); }
 		return e;
 	}
@@ -139,6 +142,63 @@ public:
 		{ tr::Rec(qid, "cna>"); }
 	}
 	size_t pending() { return _callbackData.size(); }
+};
+
+/* C06: a delayed-event queue that never fires on its own.  The harness releases held events in the order an
+ * execution of the emitted Promela model dequeued them ("for the same order of external events"). */
+class HoldDelayQueue : public DelayedEventQueueImpl {
+public:
+	struct Held { Event event; std::string uuid; size_t delayMs; };
+	std::string qid;
+	DelayedEventQueueCallbacks* _cb;
+	std::list<Held> held;
+	HoldDelayQueue(DelayedEventQueueCallbacks* cb) : _cb(cb) {
+		qid = "q" + std::to_string(g_queueCount++);
+		(*g_queues)[(DelayedEventQueueImpl*)this] = QueueInfo{qid, "delay"};
+	}
+	virtual ~HoldDelayQueue() {
+		if (g_queues) g_queues->erase((DelayedEventQueueImpl*)this);
+	}
+	virtual std::shared_ptr<DelayedEventQueueImpl> create(DelayedEventQueueCallbacks* cb) {
+		return std::shared_ptr<DelayedEventQueueImpl>(new HoldDelayQueue(cb));
+	}
+	virtual void enqueueDelayed(const Event& event, size_t delayMs, const std::string& uuid) {
+		{ tr::Rec(qid, "dly<").rawjson(eventJSON(event)).num((long long)delayMs).str(uuid); }
+		held.push_back(Held{event, uuid, delayMs});
+		{ tr::Rec(qid, "dly>").str(event.name).str(uuid); }
+	}
+	virtual void cancelDelayed(const std::string& uuid) {
+		{ tr::Rec(qid, "cnl<").str(uuid); }
+		for (auto it = held.begin(); it != held.end();) {
+			if (it->uuid == uuid) it = held.erase(it);
+			else ++it;
+		}
+		{ tr::Rec(qid, "cnl>").str(uuid); }
+	}
+	virtual void cancelAllDelayed() {
+		{ tr::Rec(qid, "cna<"); }
+		held.clear();
+		{ tr::Rec(qid, "cna>"); }
+	}
+	virtual std::shared_ptr<EventQueueImpl> create() { return std::shared_ptr<EventQueueImpl>(); }
+	virtual void enqueue(const Event& event) {}
+	virtual Event dequeue(size_t blockMs) { return Event(); }
+	virtual void reset() { held.clear(); }
+	virtual Data serialize() { return Data(); }
+	virtual void deserialize(const Data& data) {}
+	/* deliver the first held event with this name (among several: the smallest delay, then the oldest) */
+	bool release(const std::string& name) {
+		auto best = held.end();
+		for (auto it = held.begin(); it != held.end(); ++it) {
+			if (it->event.name == name && (best == held.end() || it->delayMs < best->delayMs)) best = it;
+		}
+		if (best == held.end()) return false;
+		Held h = *best;
+		held.erase(best);
+		{ tr::Rec(qid, "rel").str(h.event.name).str(h.uuid); }
+		_cb->eventReady(h.event, h.uuid);
+		return true;
+	}
 };
 
 class RecLogger : public LoggerImpl {
